@@ -163,7 +163,11 @@ def audit(M, cm, g, events=None, closable=False, scope_first_may_be_end=False):
         cj = [d for d in tj.descs if d.atom == j - oj]
         used_at[i] += 1
         used_at[j] += 1
-        if not ci or not cj:
+        wrong = [(x, o, t) for (x, o, t) in ((i, oi, ti), (j, oj, tj)) if atom_sig(mol.GetAtomWithIdx(x)) != t.reading.atoms[x - o]]
+        if wrong:
+            x, o, t = wrong[0]
+            out.append(V("c04.bond-on-an-atom-that-is-not-the-descriptor-atom", f"bond {(i, j)}: position {x - o} of the instance of {t.text} holds {atom_sig(mol.GetAtomWithIdx(x))}, the notation writes {t.reading.atoms[x - o]} there (the atom that carries the descriptor): the bond sits on another atom of the residue"))
+        elif not ci or not cj:
             who = [f"atom {x - o} of {t.text}" for (x, o, t, c) in ((i, oi, ti, ci), (j, oj, tj, cj)) if not c]
             out.append(V("c04.bond-at-atom-without-descriptor", f"bond {(i, j)} between residues {block_of[i]} and {block_of[j]} sits on {' and '.join(who)}, where the notation writes no bond descriptor"))
         elif not any(rc.compat(a.triple, b.triple) and abs(a.order - od) < 1e-9 for a in ci for b in cj):
